@@ -1,6 +1,6 @@
 (* Dispatch: the single entry point [run : sx -> sx] of the executable model. *)
 From Coq Require Import List ZArith NArith Bool.
-From SV Require Import Sx Str Omap Beat Props Notes Generated.Tables.
+From SV Require Import Sx Str Omap Beat Props Notes Group Generated.Tables.
 Import ListNotations.
 Open Scope Z_scope.
 
@@ -20,7 +20,7 @@ Definition run_props (cmd : Z) (args : list sx) : sx :=
   match cmd, args with
   | 180, [m; ops] =>                       (* ordinary mapping history *)
       do m' <- un_dict m; do ops' <- un_list un_op ops;
-      let '(mf, rs) := run_ops step m' ops' in ok (L [sx_dict mf; sx_list sx_res rs])
+      let '(mf, rs) := run_ops Props.step m' ops' in ok (L [sx_dict mf; sx_list sx_res rs])
   | 181, [m; ops] =>                       (* SM chart history *)
       do m' <- un_dict m; do ops' <- un_list un_op ops;
       let '(mf, rs) := run_ops (smc_step Tables.sm_chart_properties) m' ops' in ok (L [sx_dict mf; sx_list sx_res rs])
@@ -38,11 +38,42 @@ Definition run_notes (cmd : Z) (args : list sx) : sx :=
   | _, _ => bad_request
   end.
 
-Definition run (req : sx) : sx :=
+Definition run_group (cmd : Z) (args : list sx) : sx :=
+  match cmd, args with
+  | 90, [types; m; j; ph; pt; ns] =>
+      do types' <- un_list un_N types; do m' <- un_sbn m; do j' <- un_bool j;
+      do ph' <- un_policy ph; do pt' <- un_policy pt; do ns' <- un_list un_note ns;
+      ok (sx_gres (group_notes types' m' j' ph' pt' ns'))
+  | 91, [pol; groups] =>
+      do pol' <- un_policy pol; do g' <- un_list (un_list un_item) groups; ok (sx_ures (ungroup_notes pol' g'))
+  | 95, [types; m; j; ph; pt; pol; ns] =>
+      do types' <- un_list un_N types; do m' <- un_sbn m; do j' <- un_bool j;
+      do ph' <- un_policy ph; do pt' <- un_policy pt; do pol' <- un_policy pol; do ns' <- un_list un_note ns;
+      match group_notes types' m' j' ph' pt' ns' with
+      | GOk g => ok (L [A 0; sx_ures (ungroup_notes pol' g)])
+      | GErrOrphan n => ok (L [A 1; sx_note n])
+      | GErrInternal => ok (L [A 2])
+      end
+  | 92, [types; m; mn; ns] =>
+      do types' <- un_list un_N types; do m' <- un_sbn m; do mn' <- un_nat mn; do ns' <- un_list un_note ns;
+      ok (sx_opt sx_nat (count_steps types' m' mn' ns'))
+  | 93, [ns] => do ns' <- un_list un_note ns; ok (sx_nat (count_mines ns'))
+  | 94, [A head; ph; pt; ns] =>
+      do ph' <- un_policy ph; do pt' <- un_policy pt; do ns' <- un_list un_note ns;
+      match count_holds_or_rolls (Z.to_N head) ph' pt' ns' with
+      | GOk g => ok (L [A 0; sx_nat (count_grouped 1 g)])
+      | GErrOrphan n => ok (L [A 1; sx_note n])
+      | GErrInternal => ok (L [A 2])
+      end
+  | _, _ => bad_request
+  end.
+
+Definition dispatch_request (req : sx) : sx :=
   match req with
   | L (A cmd :: args) =>
       if (140 <=? cmd) && (cmd <? 150) then run_beat cmd args
       else if (70 <=? cmd) && (cmd <? 90) then run_notes cmd args
+      else if (90 <=? cmd) && (cmd <? 100) then run_group cmd args
       else if (180 <=? cmd) && (cmd <? 190) then run_props cmd args
       else bad_request
   | _ => bad_request
